@@ -19,6 +19,9 @@ pub enum Api {
     /// like StepRow, but the k-th call on the ConvertLineProgram is `read_sequence` when bit k of
     /// the schedule is set and `read_row` otherwise (calls beyond bit 63: `read_row`)
     Sched(u64),
+    /// like StepRow, but the line program is re-encoded in another DWARF version
+    /// (`read_line_program(Some(encoding with that version), None)`)
+    Reenc(u16),
 }
 
 thread_local! {
@@ -32,6 +35,7 @@ impl Api {
             Api::StepRow => "stepwise(read_row)",
             Api::StepSeq => "stepwise(read_sequence)",
             Api::Sched(_) => "stepwise(read_row/read_sequence schedule)",
+            Api::Reenc(_) => "stepwise(read_row, line program re-encoded in another version)",
         }
     }
 }
@@ -74,7 +78,14 @@ fn step_unit<'u, 'a>(unit: &mut write::ConvertUnit<'u, RD<'a>>, root_entry: writ
 /// (DW_AT_low_pc, DW_AT_comp_dir ... which the split unit inherits) are converted onto the output
 /// root after the split root's own, as crates/examples/src/bin/convert.rs does.
 fn step_unit_with<'u, 'a>(unit: &mut write::ConvertUnit<'u, RD<'a>>, root_entry: write::ConvertUnitEntry<'u, RD<'a>>, skeleton_root: Option<&write::ConvertUnitEntry<'_, RD<'a>>>, api: Api, sections: &mut write::Sections<EndianVec<RunTimeEndian>>) -> Result<Result<(), write::Error>, ConvertError> {
-    if let Some(mut cp) = unit.read_line_program(None, None)? {
+    let line_encoding = match api {
+        Api::Reenc(version) => {
+            let e = unit.read_unit.encoding();
+            Some(gimli::Encoding { version, format: e.format, address_size: e.address_size })
+        }
+        _ => None,
+    };
+    if let Some(mut cp) = unit.read_line_program(line_encoding, None)? {
         match api {
             Api::StepSeq => {
                 while let Some(sequence) = cp.read_sequence()? {
